@@ -370,6 +370,31 @@ impl<T> NextKeyIter<T> {
     }
 }
 
+#[cfg(feature = "verif-hooks")]
+impl<T> SlotMap<T> {
+    pub(crate) fn verif_next_free(&self) -> u32 {
+        self.next_free
+    }
+
+    /// Sets the generation of an occupied slot. `generation` must be odd.
+    pub(crate) fn verif_set_generation(&mut self, index: u32, generation: u32) -> bool {
+        match self.slots.get_mut(index as usize) {
+            Some(slot) if !slot.is_vacant() && generation % 2 == 1 => {
+                slot.generation = generation;
+                true
+            }
+            _ => false,
+        }
+    }
+}
+
+#[cfg(feature = "verif-hooks")]
+impl<T> NextKeyIter<T> {
+    pub(crate) fn verif_index(&self) -> u32 {
+        self.index
+    }
+}
+
 #[cfg(test)]
 mod tests {
     use alloc::collections::BTreeSet;
